@@ -152,7 +152,7 @@ func (m *Map) makeLayers() ([][]*MapNode, error) {
 			if i != 0 {
 				fmt.Fprintf(msg, "->")
 			}
-			fmt.Fprintf(msg, node.Name)
+			fmt.Fprint(msg, node.Name)
 		}
 		return nil, errors.New(msg.String())
 	}
